@@ -10,6 +10,9 @@
 //   client_valid   : 0-2 interim 1xx + final response (CL / chunked / close-delimited / bodyless) + surplus
 //   client_badlen  : responses with invalid length information are never returned
 //   client_bytes   : mutated / arbitrary bytes: only HttpFramingError leaves the framer
+//   server_lengths / client_lengths : 2-3 Content-Length values (separate lines / comma lists / leading zeros, every order,
+//                    zero first) that differ => never framed; equal values or Content-Length next to Transfer-Encoding =>
+//                    rejected or framed correctly, nothing else
 //   client_caps    : small configured response caps, bodies just below / at / above the cap (Content-Length,
 //                    many small chunks, close-delimited) over several receives: a body beyond the cap is never returned
 #include "pbt.hpp"
@@ -97,6 +100,8 @@ bool hitsHot(const std::vector<Cuts> &plans, const std::vector<std::size_t> &hot
   return false;
 }
 
+const char *kFollowUpRequest = "GET /after HTTP/1.1\r\nHost: follow-up\r\n\r\n";
+
 KnownFn knownFn() { return [](const std::string &s) { return pbt::isKnown(s); }; }
 
 struct Pipeline
@@ -182,6 +187,32 @@ Failure runServerPlans(pbt::Case &c, const std::string &wire, const std::vector<
   return first;
 }
 
+/// Like runServerPlans, but every run may satisfy ANY of the alternative expectations (recipient MAY accept or reject).
+Failure runServerPlansAlt(const std::string &wire, const std::vector<Cuts> &plans, const std::vector<ServerExpectation> &alts, const std::string &sigIfNone)
+{
+  std::vector<ServerRun> runs;
+  runs.reserve(plans.size());
+  for (auto &cuts : plans) runs.push_back(feedServer(wire, cuts));
+  server().quiesce();
+  Failure first;
+  for (std::size_t i = 0; i < runs.size(); ++i)
+  {
+    collect(runs[i]);
+    if (first.failed()) continue;
+    Failure f0;
+    bool ok = false;
+    for (std::size_t a = 0; a < alts.size() && !ok; ++a)
+    {
+      Failure f = judgeServerRun(runs[i], alts[a], wire, knownFn(), [](const std::string &) {});
+      if (!f.failed()) ok = true;
+      else if (a == 0) f0 = f;
+      if (f.sig.find("exception-escapes") != std::string::npos || f.sig.find("buffer-beyond-cap") != std::string::npos) { first = f; break; }
+    }
+    if (!ok && !first.failed()) first = Failure{sigIfNone, "neither rejected nor framed as one of the acceptable readings; as a reject it fails with: " + f0.what};
+  }
+  return first;
+}
+
 void mutateBytes(pbt::Src &src, std::string &text, std::size_t maxMuts)
 {
   static const std::vector<std::string> tokens = {
@@ -240,6 +271,25 @@ PBT_PROPERTY(selfcheck)
     refhttp::Parsed pp = refhttp::parseRequests(std::string_view(p.wire).substr(0, cut));
     if (pp.tail != refhttp::Tail::Ok && pp.tail != refhttp::Tail::Incomplete)
       c.fail("harness/selfcheck/prefix", pbt::Fmt() << "prefix " << cut << " classified " << refhttp::tailName(pp.tail) << ": " << pp.why);
+    // repeated / combined length fields: conflict => invalid length information; equal or next to Transfer-Encoding => no verdict
+    {
+      refhttp::LengthCombo lc = refhttp::genLengthCombo(src, true);
+      refhttp::Parsed pl = refhttp::parseRequests(lc.wire);
+      refhttp::Parsed pr = refhttp::parseResponse(refhttp::genLengthCombo(src, false).wire, "GET", true);
+      (void)pr;
+      if (!pl.msgs.empty() || pl.tail != (lc.mustReject ? refhttp::Tail::BadLength : refhttp::Tail::Unsupported))
+      {
+        c.fail("harness/selfcheck/length-combo", pbt::Fmt() << lc.kind << " classified " << refhttp::tailName(pl.tail) << " (" << pl.why << ") wire=" << refhttp::showBytes(lc.wire, 300));
+        return;
+      }
+      refhttp::LengthCombo lr = refhttp::genLengthCombo(src, false);
+      refhttp::Parsed p2 = refhttp::parseResponse(lr.wire, "GET", true);
+      if (!p2.msgs.empty() || p2.tail != (lr.mustReject ? refhttp::Tail::BadLength : refhttp::Tail::Unsupported))
+      {
+        c.fail("harness/selfcheck/length-combo", pbt::Fmt() << lr.kind << " (response) classified " << refhttp::tailName(p2.tail) << " (" << p2.why << ") wire=" << refhttp::showBytes(lr.wire, 300));
+        return;
+      }
+    }
     // invalid length information is recognised as such
     refhttp::BadLen b = src.coin(1, 5) ? refhttp::genHugeChunk(src, true) : refhttp::genBadLength(src, true);
     refhttp::Parsed pb = refhttp::parseRequests(b.wire);
@@ -560,6 +610,108 @@ PBT_PROPERTY(client_bytes)
   std::vector<Cuts> plans = planCuts(src, wire.size(), hot, exhaustive, 160);
   Failure f = runClientPlans(method, wire, plans, e, eof);
   if (f.failed()) c.fail(f.sig, f.what);
+}
+
+// ------------------------------------------------------------------- server_lengths / client_lengths
+PBT_PROPERTY(server_lengths)
+{
+  pbt::watchdog(60, "C15/server/call-does-not-return");
+  refhttp::GenOpts o;
+  o.maxBody = 60;
+  o.trailers = !pbt::isKnown("C15/server/message-after-trailers-lost");
+  Pipeline p;
+  if (src.coin()) p = genPipeline(src, o, 1);
+  refhttp::LengthCombo lc = refhttp::genLengthCombo(src, true);
+  std::size_t badStart = p.wire.size();
+  std::string wire = p.wire + lc.wire + kFollowUpRequest;
+  c.describe(pbt::Fmt() << "kind=" << lc.kind << " valid-prefix=" << p.msgs.size() << " stream=" << refhttp::showBytes(wire, 700));
+  c.label("kind " + lc.kind);
+  c.nontrivial(pbt::hash64(wire));
+  std::vector<std::size_t> hot = p.hot;
+  for (std::size_t k = badStart; k <= badStart + lc.wire.size(); ++k) hot.push_back(k);
+  bool exhaustive = false;
+  std::vector<Cuts> plans = planCuts(src, wire.size(), hot, exhaustive, 400);
+  ServerExpectation rejected = expectationFromPipeline(p);
+  rejected.requireDrained = false;
+  rejected.requireRejected = true;
+  rejected.badKind = lc.kind;
+  if (lc.mustReject)
+  {
+    Failure f = runServerPlans(c, wire, plans, rejected);
+    if (f.failed()) c.fail(f.sig, f.what);
+    return;
+  }
+  std::vector<ServerExpectation> alts{rejected};
+  for (auto &acc : lc.accepted)
+  {
+    ServerExpectation e = expectationFromPipeline(p);
+    ExpectedReq r;
+    r.canon = acc.canon(true);
+    e.must.push_back(r);
+    ExpectedReq fu;
+    fu.canon = "GET /after\nhost: follow-up\n\n";
+    e.must.push_back(fu);
+    e.requireDrained = true;
+    alts.push_back(e);
+  }
+  Failure f = runServerPlansAlt(wire, plans, alts, "C15/server/repeated-length-misframed/" + lc.kind);
+  if (f.failed()) c.fail(f.sig, f.what);
+}
+
+PBT_PROPERTY(client_lengths)
+{
+  pbt::watchdog(60, "C15/client/call-does-not-return");
+  refhttp::GenOpts o;
+  o.maxBody = 60;
+  std::string method = src.coin(1, 4) ? "POST" : "GET";
+  std::string wire;
+  if (src.coin(1, 4)) wire += refhttp::genResponse(src, o, method, true, false).wire;
+  refhttp::LengthCombo lc = refhttp::genLengthCombo(src, false);
+  std::size_t badStart = wire.size();
+  wire += lc.wire;
+  std::size_t messageEnd = wire.size();
+  if (src.coin()) wire += "HTTP/1.1 200 OK\r\nContent-Length: 2\r\n\r\nok";
+  c.describe(pbt::Fmt() << "kind=" << lc.kind << " " << method << " <- " << refhttp::showBytes(wire, 700));
+  c.label("kind " + lc.kind);
+  c.nontrivial(pbt::hash64(wire));
+  std::vector<std::size_t> hot;
+  for (std::size_t k = badStart; k <= badStart + lc.wire.size(); ++k) hot.push_back(k);
+  bool exhaustive = false;
+  std::vector<Cuts> plans = planCuts(src, wire.size(), hot, exhaustive, 400);
+  std::vector<ClientExpectation> alts;
+  {
+    ClientExpectation e;
+    e.kind = ClientExpectation::MustNotComplete;
+    e.rejectExpected = true;
+    e.badKind = lc.kind;
+    alts.push_back(e);
+  }
+  for (auto &acc : lc.accepted)
+  {
+    ClientExpectation e;
+    e.kind = ClientExpectation::MustComplete;
+    e.canon = acc.canon(false);
+    e.messageEnd = messageEnd;
+    alts.push_back(e);
+  }
+  for (auto &cuts : plans)
+  {
+    ClientRun r = runClient(method, wire, cuts, /*eof=*/true);
+    Failure f0;
+    bool ok = false;
+    for (std::size_t a = 0; a < alts.size() && !ok; ++a)
+    {
+      Failure f = judgeClientRun(r, alts[a], wire);
+      if (!f.failed()) ok = true;
+      else if (a == 0) f0 = f;
+    }
+    if (!ok)
+    {
+      if (lc.mustReject) c.fail(f0.sig, f0.what);
+      else c.fail("C15/client/repeated-length-misframed/" + lc.kind, "neither rejected nor returned as one of the acceptable readings; as a reject it fails with: " + f0.what);
+      return;
+    }
+  }
 }
 
 // ---------------------------------------------------------------------------- client_caps
@@ -1147,6 +1299,17 @@ PBT_REGRESSION(server_content_length_conflict_rejected)
   if (c.failed()) return;
   regressServer(c, std::string("POST /l HTTP/1.1\r\nHost: h\r\nContent-Length: 7\r\nContent-Length: 5\r\n\r\nhello!!") + kFollowUp, 0, refhttp::Tail::BadLength);
 }
+PBT_REGRESSION(server_content_length_zero_then_five_rejected)
+{
+  // the first of two conflicting values is zero ("0" and "00"): a "seen before" test on the value itself misses it
+  regressServer(c, std::string("POST /l HTTP/1.1\r\nHost: h\r\nContent-Length: 0\r\nContent-Length: 5\r\n\r\nhello") + kFollowUp, 0, refhttp::Tail::BadLength);
+  if (c.failed()) return;
+  regressServer(c, std::string("POST /l HTTP/1.1\r\nHost: h\r\nContent-Length: 00\r\nX-Pad: 1\r\ncontent-length: 5\r\n\r\nhello") + kFollowUp, 0, refhttp::Tail::BadLength);
+  if (c.failed()) return;
+  regressServer(c, std::string("POST /l HTTP/1.1\r\nHost: h\r\nContent-Length: 0\r\nContent-Length: 0\r\nContent-Length: 5\r\n\r\nhello") + kFollowUp, 0, refhttp::Tail::BadLength);
+  if (c.failed()) return;
+  regressServer(c, std::string("POST /l HTTP/1.1\r\nHost: h\r\nContent-Length: 5\r\nContent-Length: 0\r\n\r\nhello") + kFollowUp, 0, refhttp::Tail::BadLength);
+}
 PBT_REGRESSION(server_content_length_overflow_rejected)
 {
   regressServer(c, std::string("POST /l HTTP/1.1\r\nHost: h\r\nContent-Length: 18446744073709551621\r\n\r\nhello") + kFollowUp, 0, refhttp::Tail::BadLength);
@@ -1186,7 +1349,8 @@ PBT_REGRESSION(client_head_and_304_have_no_body)
 PBT_REGRESSION(client_invalid_lengths_rejected)
 {
   for (std::string w : {"HTTP/1.1 200 OK\r\nContent-Length: 12abc\r\n\r\nabcdefghijkl", "HTTP/1.1 200 OK\r\nContent-Length: +5\r\n\r\nhello",
-                        "HTTP/1.1 200 OK\r\nContent-Length: 5\r\nContent-Length: 6\r\n\r\nhello!", "HTTP/1.1 200 OK\r\nContent-Length: 18446744073709551621\r\n\r\nhello",
+                        "HTTP/1.1 200 OK\r\nContent-Length: 5\r\nContent-Length: 6\r\n\r\nhello!", "HTTP/1.1 200 OK\r\nContent-Length: 0\r\nContent-Length: 5\r\n\r\nhello",
+                        "HTTP/1.1 200 OK\r\nContent-Length: 00\r\nContent-Length: 5\r\n\r\nhello", "HTTP/1.1 200 OK\r\nContent-Length: 0, 5\r\n\r\nhello", "HTTP/1.1 200 OK\r\nContent-Length: 18446744073709551621\r\n\r\nhello",
                         "HTTP/1.1 200 OK\r\nTransfer-Encoding: chunked\r\n\r\nzz\r\nhello\r\n0\r\n\r\n", "HTTP/1.1 200 OK\r\nTransfer-Encoding: chunked\r\n\r\n10000000000000005\r\nhello\r\n0\r\n\r\n",
                         "HTTP/1.1 200 OK\r\nTransfer-Encoding: chunked\r\n\r\n5\r\nhelloXX\r\n0\r\n\r\n", "HTTP/1.1 200 OK\r\nTransfer-Encoding: chunked\r\n\r\n5\r\nhelloXX0\r\n\r\n"})
   {
